@@ -1,13 +1,16 @@
 use minijinja::Environment;
-use mjv::gen::ctx::Recording;
 fn main() {
-    for src in std::env::args().skip(1) {
-        let mut env = Environment::new();
-        env.set_debug(false);
-        env.add_template_owned("t.txt".to_string(), src.clone()).unwrap();
-        let t = env.get_template("t.txt").unwrap();
-        let rec = Recording::new(vec![("caller".to_string(), minijinja::Value::from("CTX"))]);
-        let r = t.render(rec.value());
-        println!("{src}\n  => {r:?}\n  requested {:?}\n  undeclared {:?}", rec.requested(), t.undeclared_variables(false));
+    let mut env = Environment::new();
+    env.add_template("selfimp.txt", "{% import 'selfimp.txt' as m %}x").unwrap();
+    env.add_template("main.txt", "a\n{% import 'selfimp.txt' as si %}").unwrap();
+    let err = env.get_template("main.txt").unwrap().render(()).unwrap_err();
+    let mut e: Option<&dyn std::error::Error> = Some(&err);
+    let mut n = 0;
+    while let Some(x) = e {
+        if let Some(me) = x.downcast_ref::<minijinja::Error>() {
+            if n < 3 || x.source().is_none() { println!("{n}: kind={:?} name={:?} line={:?}", me.kind(), me.name(), me.line()); }
+        }
+        n += 1;
+        e = x.source();
     }
 }
